@@ -80,6 +80,17 @@ def replay(case):
             return [s0] * d, [l0] * d, [e0] * d, M
         return [a.copy() for a in Ss], L, [np.eye(n) for _ in range(d)], M
 
+    _lib_args = lib_args
+
+    def lib_args():
+        # the component arrays are the caller's: read-only (an integrator must not write into them)
+        out_ = _lib_args()
+        for part in out_:
+            for a in (part if isinstance(part, list) else [part]):
+                if isinstance(a, np.ndarray):
+                    a.setflags(write=False)
+        return out_
+
     fns = {'lie': ode.lie_splitting, 'strang': ode.strang_splitting, 'yoshida': ode.yoshida_splitting,
            'kahan_li': ode.kahan_li_splitting}
     plan = {'lie': (1 / 64, 4), 'strang': (1 / 32, 4), 'yoshida': (1 / 16, 2), 'kahan_li': (1 / 4, 2)}
